@@ -56,6 +56,8 @@ pub struct Gen<'r> {
     ctx: Vec<FnCtx>,
     n_asserts: u32,
     n_unreach: u32,
+    /// while generating a global initialiser: no statements with effects
+    no_effects: bool,
 }
 
 const INT_POOL: &[i64] = &[0, 1, 2, 3, 4, 5, 7, 10, 12, 100, 255, 1000, 65536, 2147483647, 4294967296, 9007199254740993, 9223372036854775807];
@@ -82,7 +84,7 @@ const STR_POOL: &[&str] = &["", "a", "b", "ab", "abc", "hello", "Z", "0", "x y",
 
 impl<'r> Gen<'r> {
     pub fn new(rng: &'r mut Rng, cfg: Cfg) -> Self {
-        Gen { rng, p: Program::default(), cfg, scopes: Vec::new(), globals: Vec::new(), fns: Vec::new(), ctx: Vec::new(), n_asserts: 0, n_unreach: 0 }
+        Gen { rng, p: Program::default(), cfg, scopes: Vec::new(), globals: Vec::new(), fns: Vec::new(), ctx: Vec::new(), n_asserts: 0, n_unreach: 0, no_effects: false }
     }
 
     fn feat(&mut self, f: &'static str) {
@@ -613,7 +615,7 @@ impl<'r> Gen<'r> {
     /// a statement with an observable effect but no new binder
     fn effect_stmt(&mut self, depth: u32) -> Option<Stmt> {
         let pure = self.ctx.last().map(|c| c.pure).unwrap_or(false);
-        if pure {
+        if pure || self.no_effects {
             return None;
         }
         let muts = self.mutable_vars();
@@ -704,7 +706,7 @@ impl<'r> Gen<'r> {
     fn closure_def(&mut self, depth: u32) -> Option<Vec<Stmt>> {
         // counter-style closure over a mutable local, defined and called
         let pure = self.ctx.last().map(|c| c.pure).unwrap_or(false);
-        if pure {
+        if pure || self.no_effects {
             return None;
         }
         self.feat("closure_over_mutable");
@@ -863,7 +865,7 @@ impl<'r> Gen<'r> {
     pub fn stmt(&mut self, depth: u32) -> Vec<Stmt> {
         let d = depth;
         let nested = d > 0;
-        let pure = self.ctx.last().map(|c| c.pure).unwrap_or(false);
+        let pure = self.ctx.last().map(|c| c.pure).unwrap_or(false) || self.no_effects;
         match self.rng.weighted(&[
             5,
             5,
@@ -944,7 +946,9 @@ impl<'r> Gen<'r> {
             let mutable = self.rng.chance(1, 2);
             self.scopes.push(Vec::new());
             self.ctx.push(FnCtx { ret: Ty::Void, in_loop: false, self_blob: None, rec: None, pure: false });
+            self.no_effects = true;
             let init = self.expr(&ty, 1);
+            self.no_effects = false;
             self.ctx.pop();
             self.scopes.pop();
             let b = self.declare(if mutable { "gm" } else { "gk" }, ty, mutable, BKind::Global);
